@@ -32,8 +32,12 @@ class Ser:
         if isinstance(e, ast.Name): return "(EName %s)" % q(e.id)
         if isinstance(e, ast.Attribute): return "(EAttr %s %s)" % (self.expr(e.value), q(e.attr))
         if isinstance(e, ast.Subscript):
-            if isinstance(e.slice, ast.Slice): return '(EUnsupported "slice")'
             return "(ESub %s %s)" % (self.expr(e.value), self.expr(e.slice))
+        if isinstance(e, ast.Slice):
+            # a[lo:hi] is, by Python's own definition, a[slice(lo, hi)]; written as a call of the builtin `slice`
+            if e.step is not None: return '(EUnsupported "slice step")'
+            return "(ECall (EName \"slice\") [%s; %s] [])" % (self.expr(e.lower) if e.lower is not None else "ENone",
+                                                              self.expr(e.upper) if e.upper is not None else "ENone")
         if isinstance(e, ast.BinOp) and type(e.op) in BIN: return "(EBin %s %s %s)" % (BIN[type(e.op)], self.expr(e.left), self.expr(e.right))
         if isinstance(e, ast.UnaryOp):
             if isinstance(e.op, ast.USub): return "(EUn USub %s)" % self.expr(e.operand)
